@@ -159,6 +159,13 @@ def cmd_token(opi, ofm_box, ifm_box, pt, pb):
 # mock scheduler objects: drive the REAL generator with arbitrary (small) parameters
 
 
+class NS:
+    """attribute bag with identity hash (SimpleNamespace is unhashable)"""
+
+    def __init__(self, **kw):
+        self.__dict__.update(kw)
+
+
 class MockOp:
     """one operator of a mock cascade"""
 
@@ -173,7 +180,7 @@ def build_mock_cascade(ops):
     from ethosu.vela.shape4d import Shape4D
     from ethosu.vela.ethos_u55_regs.ethos_u55_regs import resampling_mode
 
-    schedule = SimpleNamespace(cost_map={}, cascades={})
+    schedule = NS(cost_map={}, cascades={})
     sched_ops, pss = [], []
     casc = 1 if len(ops) > 1 else 0
     prev = None
@@ -193,29 +200,29 @@ def build_mock_cascade(ops):
             rmode = resampling_mode.NEAREST
         ofm_shape = Shape4D(list(m.ofm_shape))
         ifm_shape = Shape4D(list(m.ifm_shape))
-        w_t = SimpleNamespace(shape=[m.kernel_h, m.kernel_h, m.ifm_shape[3], m.ofm_shape[3]]) if not (m.pool or m.elementwise) else None
+        w_t = NS(shape=[m.kernel_h, m.kernel_h, m.ifm_shape[3], m.ofm_shape[3]]) if not (m.pool or m.elementwise) else None
         attrs = {"dilation": (1, m.dilation, m.dilation, 1)}
         if m.skirt is not None:
             attrs["skirt"] = tuple(m.skirt)
         if m.pool:
             attrs["ksize"] = (1, m.kernel_h, m.kernel_h, 1)
-        parent_op = SimpleNamespace(
+        parent_op = NS(
             attrs=attrs, read_offsets=[Shape4D(list(m.read_offset)) if m.read_offset is not None else None, None],
             read_shapes=[Shape4D(list(m.read_shape)) if m.read_shape is not None else None, None],
             write_offset=Shape4D(list(m.write_offset)) if m.write_offset is not None else None,
             write_shape=Shape4D(list(m.write_shape)) if m.write_shape is not None else None,
             activation_lut=None, type=optype, inputs=[], activation=None)
-        ifm_t, ofm_t = SimpleNamespace(name=f"ifm{i}"), SimpleNamespace(name=f"ofm{i}")
+        ifm_t, ofm_t = NS(name=f"ifm{i}"), NS(name=f"ofm{i}")
         parent_op.get_ifm_ifm2_weights_biases_ofm = (lambda a=ifm_t, w=w_t, o=ofm_t: (a, None, w, None, o))
         full = Shape4D([max(a, b) for a, b in zip(m.ofm_shape, (list((Shape4D(list(m.write_offset)) + Shape4D(list(m.write_shape))).as_list())
                                                                   if m.write_offset is not None else m.ofm_shape))])
-        ps = SimpleNamespace(npu_block_type=bt, ofm_tensor=ofm_t, ops=[], primary_op=parent_op, ofm_shapes=[full],
+        ps = NS(npu_block_type=bt, ofm_tensor=ofm_t, ops=[], primary_op=parent_op, ofm_shapes=[full],
                              ifm_shapes=[ifm_shape], name=f"ps{i}")
-        so = SimpleNamespace(parent_ps=ps, parent_op=parent_op, ifm2=None, ofm=SimpleNamespace(shape=ofm_shape),
-                             kernel=SimpleNamespace(stride=SimpleNamespace(y=m.stride, x=m.stride)), op_type=optype,
+        so = NS(parent_ps=ps, parent_op=parent_op, ifm2=None, ofm=NS(shape=ofm_shape),
+                             kernel=NS(stride=NS(y=m.stride, x=m.stride)), op_type=optype,
                              resampling_mode=rmode, reversed_operands=False, index=i)
-        so.ifm = SimpleNamespace(shape=ifm_shape, connection=SimpleNamespace(producers=[prev] if prev is not None else []))
-        info = SimpleNamespace(cascade=casc, block_config=SimpleNamespace(old_style_representation=lambda: [1, 1, 1, 1]),
+        so.ifm = NS(shape=ifm_shape, connection=NS(producers=[prev] if prev is not None else []))
+        info = NS(cascade=casc, block_config=NS(old_style_representation=lambda: [1, 1, 1, 1]),
                                stripe=Shape4D([1, m.step[0], m.step[1], m.ofm_shape[3]]), ofm_depth_slices=list(m.slices),
                                npu_weights_tensor=None, npu_scales_tensor=None, buffered_weight_tensors=[])
         schedule.cost_map[so] = info
@@ -223,7 +230,7 @@ def build_mock_cascade(ops):
         pss.append(ps)
         prev = so
     if casc:
-        schedule.cascades[1] = SimpleNamespace(start=0, end=len(ops) - 1)
+        schedule.cascades[1] = NS(start=0, end=len(ops) - 1)
     return sched_ops, schedule, pss
 
 
